@@ -29,7 +29,7 @@ REQUIRED = ["op.add", "op.add-list", "op.add-network", "op.remove_obstacle", "op
             "re-add-after-removal", "hooked-state-checked", "nonpositive-ids", "op.remove-stale.lanelet",
             "op.remove-stale.sign", "op.remove-stale.intersection"]
 EXHAUSTIVE = {"quick": "all operation sequences of length <= 2 over the fixed 21-operation alphabet",
-              "thorough": "all operation sequences of length <= 3 over the fixed 21-operation alphabet"}
+              "thorough": "all operation sequences of length <= 4 over the fixed 21-operation alphabet"}
 ASSUMPTIONS = ["atomicity of list adds beyond the failing element is not demanded (elements before it stay added)",
                "a network is added with add_objects only while the scenario's network is empty; "
                "replace_lanelet_network is only issued with networks that do not collide with contained obstacles"]
@@ -472,7 +472,7 @@ def run(ctx):
                     m.ids[k] = "incoming"
 
     # ------------------------------------------------------------------------------------------- exhaustive part
-    depth = ctx.pick(2, 3)
+    depth = ctx.pick(2, 4)
     seqs = [s for d in range(1, depth + 1) for s in itertools.product(range(len(FIXED_ALPHABET)), repeat=d)]
     for i, rng in ctx.cases("exhaustive", len(seqs)):
         hist = [FIXED_ALPHABET[k] for k in seqs[i]]
@@ -480,7 +480,7 @@ def run(ctx):
         run_history(hist, "exhaustive")
     # ----------------------------------------------------------------------------------------------- random part
     keys = sorted(U.spec)
-    n = ctx.pick(250, 20000)
+    n = ctx.pick(250, 80000)
     for i, rng in ctx.cases("random", n):
         hist = []
         contained_guess = []
@@ -522,7 +522,7 @@ def run(ctx):
         run_history(hist, "random")
     # ------------------------------------------------------------------- scenarios whose ids are all zero or negative
     neg = list(U.nonpositive)
-    n = ctx.pick(500, 20000)
+    n = ctx.pick(500, 60000)
     for i, rng in ctx.cases("nonpositive-ids", n):
         hist, have = [], []
         for _ in range(rng.randint(3, 12)):
